@@ -173,7 +173,7 @@ def run_check(pid, tier, seed):
                 violation({"kind": "oracle", "why": why, "case": line, "impl": io, "model": mo,
                            "replay_cmd": "./vp replay <this file>"})
             reported += 1
-        if mismatches:
+        if mismatches and not violations:
             # model and implementation disagree but the oracle saw no violation on these inputs:
             # search harder around them
             found = prop.search(rng, mismatches, vc.run_impl)
